@@ -2,6 +2,7 @@ package main
 
 import (
 	"fmt"
+	"strings"
 	"sync"
 	"time"
 
@@ -28,10 +29,12 @@ func (h *hookBlocks) AddBlock(ts int64, txs []*ledger.Transaction, addrs []strin
 	}
 	return h.inner.AddBlock(ts, txs, addrs)
 }
-func (h *hookBlocks) Blocks(s uint64) []*ledger.Block                 { return h.inner.Blocks(s) }
-func (h *hookBlocks) FirstBlockTimestamp() int64                      { return h.inner.FirstBlockTimestamp() }
-func (h *hookBlocks) LastBlockTimestamp() int64                       { return h.inner.LastBlockTimestamp() }
-func (h *hookBlocks) LastBlockTransactions() []*ledger.Transaction    { return h.inner.LastBlockTransactions() }
+func (h *hookBlocks) Blocks(s uint64) []*ledger.Block { return h.inner.Blocks(s) }
+func (h *hookBlocks) FirstBlockTimestamp() int64      { return h.inner.FirstBlockTimestamp() }
+func (h *hookBlocks) LastBlockTimestamp() int64       { return h.inner.LastBlockTimestamp() }
+func (h *hookBlocks) LastBlockTransactions() []*ledger.Transaction {
+	return h.inner.LastBlockTransactions()
+}
 
 type hookUtxos struct {
 	inner  application.UtxosManager
@@ -50,8 +53,10 @@ func (h *hookUtxos) Copy() application.UtxosManager {
 	}
 	return h.inner.Copy()
 }
-func (h *hookUtxos) UpdateUtxos(txs []*ledger.Transaction, ts int64) error { return h.inner.UpdateUtxos(txs, ts) }
-func (h *hookUtxos) Utxos(a string) []*ledger.Utxo                          { return h.inner.Utxos(a) }
+func (h *hookUtxos) UpdateUtxos(txs []*ledger.Transaction, ts int64) error {
+	return h.inner.UpdateUtxos(txs, ts)
+}
+func (h *hookUtxos) Utxos(a string) []*ledger.Utxo { return h.inner.Utxos(a) }
 
 type hookAddresses struct {
 	inner    application.AddressesManager
@@ -68,8 +73,8 @@ func (h *hookAddresses) Filter(a []string) []string {
 	}
 	return h.inner.Filter(a)
 }
-func (h *hookAddresses) IsRegistered(a string) bool { return h.inner.IsRegistered(a) }
-func (h *hookAddresses) RemovedAddresses() []string { return h.inner.RemovedAddresses() }
+func (h *hookAddresses) IsRegistered(a string) bool    { return h.inner.IsRegistered(a) }
+func (h *hookAddresses) RemovedAddresses() []string    { return h.inner.RemovedAddresses() }
 func (h *hookAddresses) Update(a []string, r []string) { h.inner.Update(a, r) }
 
 func runPlaceSuite(seed uint64, n int, out *Out, stats *Stats) {
@@ -157,8 +162,48 @@ func runPlaceSuite(seed uint64, n int, out *Out, stats *Stats) {
 			}
 			return c
 		}
-		kind := i % 6
+		kind := i % 7
 		switch kind {
+		case 6:
+			// a freshly started node: its first tick made its own genesis, a transaction spending the
+			// genesis output is pooled; inside the next tick (after it read the tip) a sync round adopts
+			// a longer chain that started earlier and whose tip carries the same timestamp
+			helper := NewNode(set, w.wallets[1].Addr)
+			helper.Pool.Validate(w.now - 2*set.Interval)
+			helper.Pool.Validate(w.now - set.Interval)
+			helper.Pool.Validate(w.now)
+			fr := &Node{Set: set, Validator: w.wallets[0].Addr}
+			fr.Log = &CapLogger{}
+			fr.Humans = &ScriptHumans{answer: map[string]int{}}
+			fr.Areg = verification.NewAddressesRegistry(fr.Humans, fr.Log)
+			fr.Ureg = verification.NewUtxosRegistry(set)
+			fr.Senders = &FakeSenders{host: "127.0.0.1:10600"}
+			hu = &hookUtxos{inner: fr.Ureg}
+			fr.Chain = verification.NewBlockchain(&hookAddresses{inner: fr.Areg}, set, fr.Senders, hu, fr.Log)
+			fr.Pool = validation.NewTransactionsPool(&hookBlocks{inner: fr.Chain}, set, fr.Senders, hu, fr.Validator, fr.Log)
+			nd = fr
+			w.host = fr
+			nd.Pool.Validate(w.now)
+			gen := w.fresh(nd.Chain.LastBlockTransactions())
+			if len(gen) == 0 {
+				continue
+			}
+			txs = []*ledger.Transaction{w.build(&txPlan{ins: []spendable{gen[0]}, outs: []*JOutput{{w.wallets[2].Addr, false, gen[0].value / 2}}, ts: w.now + 1})}
+			nd.Pool.AddTransaction(txs[0], "mine", "h")
+			if len(nd.Pool.Transactions()) != 1 {
+				stats.Count("place/fresh-node-tx-not-admitted")
+			}
+			hu.onCopy = func() {
+				p := honestPeer("10.6.0.2:10600", helper)
+				nd.Senders.Set([]application.Sender{&FakeSender{target: p.Target, getBlocks: p.Serve}})
+				nd.Chain.Update(w.now + set.Interval)
+				nd.Senders.Set(nil)
+			}
+			nd.Pool.Validate(w.now + set.Interval)
+			if len(nd.AllBlocks()) == 4 {
+				stats.Count("place/fresh-node-produced-on-adopted-chain")
+			}
+			stats.Count("place/fresh-node-adopts-inside-tick")
 		case 5:
 			// as placement 4, with a pooled transaction that the adopted chain has already confirmed:
 			// the tick rejects it, builds its block and is refused by AddBlock; the pool must not
@@ -189,7 +234,7 @@ func runPlaceSuite(seed uint64, n int, out *Out, stats *Stats) {
 			helper.Pool.Validate(nd.Chain.FirstBlockTimestamp())
 			helperSync(helper, w.now, []*Peer{honestPeer("10.6.0.1:10600", nd)})
 			helper.Pool.Validate(w.now + set.Interval)
-			if (i/6)%2 == 0 {
+			if (i/7)%2 == 0 {
 				helper.Pool.Validate(w.now + 2*set.Interval)
 			}
 			nd.Pool.AddTransaction(txs[0], "mine", "h")
@@ -308,10 +353,10 @@ func runPlaceSuite(seed uint64, n int, out *Out, stats *Stats) {
 		}
 		mon.CheckPool(nd.Pool.Transactions(), submitted, "after the placement")
 		if out.Violations > before {
-			out.Violation("C16", id, fmt.Sprintf("quiescent-state:%s\tafter the placement the node violates C01-C07 (see the lines above for this case)", []string{"submit-inside-tick", "tick-inside-sync", "sync-inside-addblock", "two-ticks-inside-sync", "sync-inside-tick-before-block", "sync-confirms-pooled-inside-tick"}[kind]))
+			out.Violation("C16", id, fmt.Sprintf("quiescent-state:%s:"+strings.Join(mon.HitKeys(), "+")+"\tafter the placement the node violates C01-C07 (see the lines above for this case)", []string{"submit-inside-tick", "tick-inside-sync", "sync-inside-addblock", "two-ticks-inside-sync", "sync-inside-tick-before-block", "sync-confirms-pooled-inside-tick", "fresh-node-adopts-inside-tick"}[kind]))
 		}
 		stats.Mark(fmt.Sprintf("%d/%d/%d", kind, len(blocks), len(nd.Pool.Transactions())))
-		stats.Sample(fmt.Sprintf("%s: placement %s; chain of %d blocks, pool of %d afterwards", id, []string{"submission inside a production tick (at AddBlock)", "production tick inside a sync round (at the registry copy of verify)", "sync round inside a production tick (when AddBlock consults the registry)", "two production ticks inside one sync round", "sync round inside a production tick, after the tick read the tip", "sync round confirming a pooled transaction inside a production tick"}[kind], len(blocks), len(nd.Pool.Transactions())))
+		stats.Sample(fmt.Sprintf("%s: placement %s; chain of %d blocks, pool of %d afterwards", id, []string{"submission inside a production tick (at AddBlock)", "production tick inside a sync round (at the registry copy of verify)", "sync round inside a production tick (when AddBlock consults the registry)", "two production ticks inside one sync round", "sync round inside a production tick, after the tick read the tip", "sync round confirming a pooled transaction inside a production tick", "fresh node: sync round adopting an older chain with the same tip time inside its tick"}[kind], len(blocks), len(nd.Pool.Transactions())))
 		stats.Cases++
 		stats.Ops += 2
 	}
